@@ -71,5 +71,67 @@ pub fn run(ctx: &mut Ctx) {
         cases.push(c);
     }
     ctx.run_cases(&cases);
+    unwind_leg(ctx);
     ctx.notes.push(format!("profile: {}", if cfg!(debug_assertions) { "dev (overflow checks, debug assertions)" } else { "release" }));
+}
+
+/// "Dropping the result forgets the added shards" also when the drop happens while a panic unwinds (a job that panics
+/// while it holds the result, caught by `catch_unwind` as a worker pool would): the same object must accept a new round
+/// with the same configuration and produce what a fresh object produces.
+fn unwind_leg(ctx: &mut Ctx) {
+    use reed_solomon_simd::{ReedSolomonDecoder, ReedSolomonEncoder};
+    use std::panic::{catch_unwind, AssertUnwindSafe};
+    for n in 0..(if ctx.thorough() { 40 } else { 8 }) {
+        let (k, r) = if n % 2 == 0 { (ctx.rng.range(2, 9), ctx.rng.range(1, 4)) } else { (ctx.rng.range(1, 4), ctx.rng.range(2, 9)) };
+        let sb = *ctx.rng.pick(&[2usize, 64, 66, 130]);
+        let case = Case { name: format!("unwind {}:{} {}", k, r, sb), lines: vec![format!("result of a {}:{} round ({} bytes) dropped by an unwinding panic, then a second round", k, r, sb)], with_model: false };
+        ctx.evaluations += 1;
+        ctx.count("unwind", if n % 2 == 0 { "high" } else { "low" });
+        let o1: Vec<Vec<u8>> = (0..k).map(|_| ctx.rng.bytes(sb)).collect();
+        let o2: Vec<Vec<u8>> = (0..k).map(|_| ctx.rng.bytes(sb)).collect();
+        let want: Vec<Vec<u8>> = match reed_solomon_simd::encode(k, r, &o2) { Ok(x) => x, Err(_) => continue };
+        let rec1: Vec<Vec<u8>> = match reed_solomon_simd::encode(k, r, &o1) { Ok(x) => x, Err(_) => continue };
+        // encoder
+        let Ok(mut e) = ReedSolomonEncoder::new(k, r, sb) else { continue };
+        for o in &o1 { let _ = e.add_original_shard(o); }
+        let _ = catch_unwind(AssertUnwindSafe(|| {
+            let res = e.encode().expect("round 1");
+            let _first = res.recovery(0).map(|s| s.len());
+            panic!("job failed while holding the EncoderResult");
+        }));
+        let mut bad: Option<String> = None;
+        for (i, o) in o2.iter().enumerate() {
+            if let Err(err) = e.add_original_shard(o) { bad = Some(format!("encoder: add_original_shard #{} of the second round failed: {:?}", i, err)); break; }
+        }
+        if bad.is_none() {
+            match e.encode() {
+                Ok(res) => { let got: Vec<Vec<u8>> = res.recovery_iter().map(|s| s.to_vec()).collect(); if got != want { bad = Some("encoder: the second round's recovery shards differ from a fresh encoder's".into()); } }
+                Err(err) => bad = Some(format!("encoder: encode of the second round failed: {:?}", err)),
+            }
+        }
+        if let Some(b) = bad { ctx.oracle_fail(format!("after a result was dropped by an unwinding panic — {}", b), &case, None); continue; }
+        // decoder: round 1 loses original 0, round 2 too (other data)
+        let Ok(mut d) = ReedSolomonDecoder::new(k, r, sb) else { continue };
+        for i in 1..k { let _ = d.add_original_shard(i, &o1[i]); }
+        let _ = d.add_recovery_shard(0, &rec1[0]);
+        let _ = catch_unwind(AssertUnwindSafe(|| {
+            let res = d.decode().expect("round 1");
+            let _x = res.restored_original(0).map(|s| s.len());
+            panic!("job failed while holding the DecoderResult");
+        }));
+        let mut bad: Option<String> = None;
+        for i in 1..k {
+            if let Err(err) = d.add_original_shard(i, &o2[i]) { bad = Some(format!("decoder: add_original_shard({}) of the second round failed: {:?}", i, err)); break; }
+        }
+        if bad.is_none() {
+            if let Err(err) = d.add_recovery_shard(0, &want[0]) { bad = Some(format!("decoder: add_recovery_shard(0) of the second round failed: {:?}", err)); }
+        }
+        if bad.is_none() {
+            match d.decode() {
+                Ok(res) => { if res.restored_original(0) != Some(&o2[0][..]) { bad = Some("decoder: the second round restores a wrong original".into()); } }
+                Err(err) => bad = Some(format!("decoder: decode of the second round failed: {:?}", err)),
+            }
+        }
+        if let Some(b) = bad { ctx.oracle_fail(format!("after a result was dropped by an unwinding panic — {}", b), &case, None); }
+    }
 }
